@@ -294,12 +294,11 @@ fn main() {
         suffixes.extend(next.iter().cloned());
         cur = next;
     }
-    let deadline = Instant::now() + Duration::from_secs(cli.tier.pick(50, 1500));
-    let mut execs = 0u64;
-    let mut shed_cases = 0u64;
-    let mut capped = None;
+    let deadline = Instant::now() + Duration::from_secs(cli.tier.pick(300, 1500));
     let configs: Vec<(usize, usize)> = cli.tier.pick(vec![(1, 1), (2, 1)], vec![(1, 1), (2, 1), (3, 1), (1, 2), (2, 2)]);
-    'outer: for suffix in &suffixes {
+    // all cases, shortest suffix first
+    let mut cases: Vec<Case> = vec![];
+    for suffix in &suffixes {
         for (q, a) in &configs {
             // the queue can only overflow when the suffix is longer than it
             if suffix.len() <= *q && !suffix.is_empty() {
@@ -310,37 +309,52 @@ fn main() {
                 releases.push(suffix.len() - 1);
             }
             for rel in releases {
-                if Instant::now() > deadline {
-                    capped = Some(format!("wall-clock cap; suffixes are enumerated shortest first, all shorter than {} symbols done", suffix.len()));
-                    break 'outer;
-                }
-                let case = Case { queue_len: *q, apply_len: *a, suffix: suffix.clone(), release_after: rel };
-                let res = run_case(&w, &case);
-                execs += 1;
-                if !res.violations.is_empty() {
-                    // replay-twice rule
-                    let again = run_case(&w, &case);
-                    let k1: Vec<&String> = res.violations.iter().map(|v| &v.0).collect();
-                    let k2: Vec<&String> = again.violations.iter().map(|v| &v.0).collect();
-                    if k1 != k2 {
-                        let third = run_case(&w, &case);
-                        machinery_error(&format!("non-deterministic case {case:?}: {k1:?} vs {k2:?}; shed {} vs {} vs {}; rounds {} {} {}; third {:?}", res.shed, again.shed, third.shed, res.rounds_needed, again.rounds_needed, third.rounds_needed, third.violations.iter().map(|v| &v.0).collect::<Vec<_>>()));
-                    }
-                }
-                for (k, d) in res.violations {
-                    rep.violation(&k, json!({"case": case, "d": d}));
-                }
-                if res.shed > 0 {
-                    shed_cases += 1;
-                    rep.nontrivial(digest(&format!("{case:?}")));
-                }
-                rep.outcome(res.outcome);
-                if execs % 101 == 1 {
-                    rep.sample(json!({"case": case, "shed_during_overload": res.shed, "reoffer_rounds_needed": res.rounds_needed}));
-                }
+                cases.push(Case { queue_len: *q, apply_len: *a, suffix: suffix.clone(), release_after: rel });
             }
         }
     }
+    // cases are independent executions (own node, own runtime): a few threads
+    let execs_a = std::sync::atomic::AtomicU64::new(0);
+    let shed_a = std::sync::atomic::AtomicU64::new(0);
+    let skipped = std::sync::atomic::AtomicU64::new(0);
+    let pool = rayon::ThreadPoolBuilder::new().num_threads(6).build().unwrap();
+    pool.install(|| {
+        use rayon::prelude::*;
+        use std::sync::atomic::Ordering::Relaxed;
+        cases.par_iter().for_each(|case| {
+            if Instant::now() > deadline {
+                skipped.fetch_add(1, Relaxed);
+                return;
+            }
+            let res = run_case(&w, case);
+            let n = execs_a.fetch_add(1, Relaxed) + 1;
+            if !res.violations.is_empty() {
+                // replay-twice rule
+                let again = run_case(&w, case);
+                let k1: Vec<&String> = res.violations.iter().map(|v| &v.0).collect();
+                let k2: Vec<&String> = again.violations.iter().map(|v| &v.0).collect();
+                if k1 != k2 {
+                    let third = run_case(&w, case);
+                    machinery_error(&format!("non-deterministic case {case:?}: {k1:?} vs {k2:?}; shed {} vs {} vs {}; rounds {} {} {}; third {:?}", res.shed, again.shed, third.shed, res.rounds_needed, again.rounds_needed, third.rounds_needed, third.violations.iter().map(|v| &v.0).collect::<Vec<_>>()));
+                }
+            }
+            for (k, d) in res.violations {
+                rep.violation(&k, json!({"case": case, "d": d}));
+            }
+            if res.shed > 0 {
+                shed_a.fetch_add(1, Relaxed);
+                rep.nontrivial(digest(&format!("{case:?}")));
+            }
+            rep.outcome(res.outcome);
+            if n % 101 == 1 {
+                rep.sample(json!({"case": case, "shed_during_overload": res.shed, "reoffer_rounds_needed": res.rounds_needed}));
+            }
+        });
+    });
+    let execs = execs_a.load(std::sync::atomic::Ordering::Relaxed);
+    let shed_cases = shed_a.load(std::sync::atomic::Ordering::Relaxed);
+    let sk = skipped.load(std::sync::atomic::Ordering::Relaxed);
+    let capped = if sk > 0 { Some(format!("wall-clock cap: {sk} of {} cases not run", cases.len())) } else { None };
     rep.set("states", execs);
     rep.set("transitions", execs);
     rep.set("evaluations", execs);
